@@ -214,6 +214,13 @@ def check_case(case, R):
     t2 = build.make_tree(p2, xyz=xyz2p, r=rad2p, types=_types(n, root_type))
     snap = build.snapshot(t2)
     np.random.seed(dg("C11", case) % (2 ** 32))
+    # the bounding-box measures (width / height / depth: not rigid-motion invariants themselves, so not compared) are taken FIRST, as a
+    # report generator does: measuring must leave the tree alone, and everything measured afterwards must still be invariant
+    from swcgeom.analysis.lmeasure import LMeasure as _LM
+
+    for nm_ in ("width", "height", "depth"):
+        R.attempt(getattr(_LM(), nm_), t2)
+    R.check(build.snapshot(t2) == snap, "input-modified", lambda: f"{ctx}: LMeasure.width/height/depth modified the tree they measured", "input-modified:bounding-box-measures")
     got = observe(R if root_type == 1 else _AllowRaise(R, set(base)), t2, node_map, [s * r for r in radii], p, chain)
     R.check(build.snapshot(t2) == snap, "input-modified", lambda: f"{ctx}: the tree was modified by feature evaluation")
 
